@@ -38,6 +38,9 @@ var extraAnchorFiles = map[string][]string{
 	"C12": {"internal/pkg/table/path.go"},
 }
 
+// sliceBoundFloor: the properties anchored in wire decoders have at least this many functions that hand on bounded sub-slices.
+var sliceBoundFloor = map[string]int{"C04": 20, "C05": 20, "C06": 20, "C08": 20, "C11": 20, "C14": 20, "C19": 4}
+
 // crashRelevant: the properties whose statement includes "never crashes" / "without disturbing the sender".
 var crashRelevant = map[string]bool{"C05": true, "C11": true, "C19": true, "C20": true}
 
@@ -73,6 +76,7 @@ func (c *Ctx) ruleRatchets(cid string) {
 	c.ruleReadRatchet("E6.read-ratchet", pkgs, filter, "baselines/readguard.json", 5)
 	c.ruleGuardRatchet("E6.guard-ratchet", pkgs, filter, "baselines/readguard.json", 5)
 	c.ruleWriteRatchet("E2.write-ratchet", pkgs, filter, "baselines/writes.json", 5)
+	c.ruleSliceBoundRatchet("E5.slice-bound-ratchet", pkgs, filter, "baselines/slicebounds.json", sliceBoundFloor[cid])
 	// a panic in the daemon breaks whatever the property promises: the crash causes that have a cheap sound proof
 	if crashRelevant[cid] {
 		c.ruleMakeSizeNonNeg("E5.make-size-nonneg", pkgs, filter, 3)
@@ -80,4 +84,4 @@ func (c *Ctx) ruleRatchets(cid string) {
 }
 
 // RatchetExpl is appended to every property's explanation: ruleRatchets runs for all of them.
-const RatchetExpl = " In addition, over every function of the files the property is anchored in, nine ratchets compare the tree with the committed, reviewed baselines (baselines/*.json, never written at run time; default build context only): (E4.case-ratchet) no switch lost a named case; (E6.call-ratchet) no function lost a callee, field store or map update, or one of several distinct sites of the same callee (distinct by receiver and arguments), that it does not now reach through a newly called helper; (E6.order-ratchet) in a function that still performs the same calls and stores, no two of them changed places in the strict control-flow order; (E6.condition-ratchet) in a function with the same number of comparisons, none was replaced by a point mutation of itself (another constant, another field, a moved boundary); (E6.always-ratchet) no step that ran on every path can now be bypassed; (E6.argument-ratchet) no call had one of its constant arguments replaced by another constant; (E6.read-ratchet) no function stopped reading a struct field it read; (E6.guard-ratchet) the condition under which a step runs, as a truth table over the tests it depends on, is unchanged unless it came under a new test; (E2.write-ratchet) no function started to write, itself or through its callees, into memory reachable from a parameter in a way it did not before. For C05, C11, C19 and C20, whose statements exclude a crash, (E5.make-size-nonneg) additionally proves every make() size in those files non-negative. Each ratchet declines to decide (discharges with the reason) when the function's shape changed beyond what it can compare."
+const RatchetExpl = " In addition, over every function of the files the property is anchored in, ten ratchets compare the tree with the committed, reviewed baselines (baselines/*.json, never written at run time; default build context only): (E4.case-ratchet) no switch lost a named case; (E6.call-ratchet) no function lost a callee, field store or map update, or one of several distinct sites of the same callee (distinct by receiver and arguments), that it does not now reach through a newly called helper; (E6.order-ratchet) in a function that still performs the same calls and stores, no two of them changed places in the strict control-flow order; (E6.condition-ratchet) in a function with the same number of comparisons, none was replaced by a point mutation of itself (another constant, another field, a moved boundary); (E6.always-ratchet) no step that ran on every path can now be bypassed; (E6.argument-ratchet) no call had one of its constant arguments replaced by another constant; (E6.read-ratchet) no function stopped reading a struct field it read; (E6.guard-ratchet) the condition under which a step runs, as a truth table over the tests it depends on, is unchanged unless it came under a new test; (E2.write-ratchet) no function started to write, itself or through its callees, into memory reachable from a parameter in a way it did not before; (E5.slice-bound-ratchet) no call that handed its callee a sub-slice of a byte buffer cut off at an upper index chosen by the code now hands over the rest of the buffer. For C05, C11, C19 and C20, whose statements exclude a crash, (E5.make-size-nonneg) additionally proves every make() size in those files non-negative. Each ratchet declines to decide (discharges with the reason) when the function's shape changed beyond what it can compare."
